@@ -52,13 +52,13 @@ Lemma scatter_length x L : forall y, length (scatter x L y) = length y.
 Proof. unfold scatter. induction L as [|I L IH]; intros y; cbn [fold_left]; [reflexivity|]. rewrite IH. apply set_at_length. Qed.
 
 (* a position written by some leaf I0 ends up holding x[I0]: a later leaf writing the same position is the same leaf *)
-Lemma scatter_nth x L : forall y I0, length y = n -> (forall I, In I L -> (I < n)%nat) -> In I0 L ->
+Lemma scatter_nth x L : forall y I0, (n <= length y)%nat -> (forall I, In I L -> (I < n)%nat) -> In I0 L ->
   nth (rev k I0) (scatter x L y) 0 = nth I0 x 0.
 Proof.
   unfold scatter. induction L as [|I L IH] using rev_ind; intros y I0 Hy Hlt Hin; [destruct Hin|].
   rewrite fold_left_app. cbn [fold_left].
-  assert (Ly : length (fold_left (fun y I => set_at y (pc k I) (nth I x 0)) L y) = n) by (rewrite <- Hy; apply (scatter_length x L y)).
-  rewrite set_at_nth by (rewrite Ly, pc_is_rev; apply rev_lt).
+  assert (Ly : (n <= length (fold_left (fun y I => set_at y (pc k I) (nth I x 0%Z)) L y))%nat) by (pose proof (scatter_length x L y) as E; unfold scatter in E; rewrite E; exact Hy).
+  rewrite set_at_nth by (rewrite pc_is_rev; pose proof (rev_lt k I); unfold n in Ly; lia).
   rewrite pc_is_rev. destruct (Nat.eqb_spec (rev k I0) (rev k I)) as [E|E].
   - (* same position: same leaf *)
     assert (I0 = I); [|now subst].
@@ -76,8 +76,34 @@ Proof.
     unfold BR. rewrite tab_nth by exact Hj.
     pose proof (rev_lt k j) as Hr.
     rewrite <- (rev_involutive k j Hj) at 1.
-    apply scatter_nth; [apply repeat_length | intros I HI; apply rset_In in HI; rewrite Nat.mul_0_l, Nat.add_0_l, Nat.mul_1_l in HI; apply HI
+    apply scatter_nth; [rewrite repeat_length; apply Nat.le_refl | intros I HI; apply rset_In in HI; rewrite Nat.mul_0_l, Nat.add_0_l, Nat.mul_1_l in HI; apply HI
                         | apply rset_In; rewrite Nat.mul_0_l, Nat.add_0_l, Nat.mul_1_l; split; [lia | exact Hr]].
+Qed.
+
+Lemma nth_skipn_Z (l : list Z) a i : nth i (skipn a l) 0 = nth (a + i) l 0.
+Proof. revert a; induction l as [|b l IH]; intros [|a]; simpl; auto. destruct i; reflexivity. Qed.
+(* the same for a destination of any contents and any length >= n (the scratch array of inv_ntt has n+1 uninitialised words): the first n
+   words become the bit-reversed copy, the others are not touched *)
+Lemma scatter_keeps x L : forall y j, (forall I, In I L -> (I < n)%nat) -> (n <= j)%nat -> nth j (scatter x L y) 0 = nth j y 0.
+Proof.
+  unfold scatter. induction L as [|I L IH]; intros y j Hlt Hj; cbn [fold_left]; [reflexivity|].
+  rewrite IH by (try exact Hj; intros J HJ; apply Hlt; right; exact HJ).
+  destruct (Nat.lt_ge_cases (pc k I) (length y)) as [Hin|Hout].
+  - rewrite set_at_nth by exact Hin. assert (pc k I < n)%nat by (rewrite pc_is_rev; apply rev_lt). destruct (Nat.eqb_spec j (pc k I)); [lia | reflexivity].
+  - assert (E : set_at y (pc k I) (nth I x 0) = y).
+    { clear - Hout. revert Hout. generalize (pc k I) as i. induction y as [|a y IHy]; intros i Hi; [reflexivity|]. destruct i as [|i]; [cbn in Hi; lia|]. cbn [set_at]. rewrite IHy by (cbn in Hi; lia). reflexivity. }
+    rewrite E. reflexivity.
+Qed.
+Theorem scatter_BR_any x y : (n <= length y)%nat -> scatter x (rset k 0) y = BR k0 x ++ skipn n y.
+Proof.
+  intros Hy. assert (Hall : forall I, In I (rset k 0) -> (I < n)%nat) by (intros I HI; apply rset_In in HI; rewrite Nat.mul_0_l, Nat.add_0_l, Nat.mul_1_l in HI; apply HI).
+  apply (nth_ext _ _ 0 0).
+  - rewrite scatter_length, app_length, skipn_length. unfold BR. rewrite tab_length. fold k n. lia.
+  - intros j Hj. rewrite scatter_length in Hj. destruct (Nat.lt_ge_cases j n) as [Hlt|Hge].
+    + rewrite app_nth1 by (unfold BR; rewrite tab_length; exact Hlt). unfold BR. rewrite tab_nth by exact Hlt.
+      rewrite <- (rev_involutive k j Hlt) at 1. apply scatter_nth; [exact Hy | exact Hall | apply rset_In; rewrite Nat.mul_0_l, Nat.add_0_l, Nat.mul_1_l; split; [lia | apply rev_lt]].
+    + rewrite app_nth2 by (unfold BR; rewrite tab_length; exact Hge). unfold BR. rewrite tab_length. fold k n. rewrite nth_skipn_Z. replace (n + (j - n))%nat with j by lia.
+      apply scatter_keeps; assumption.
 Qed.
 End P.
 Print Assumptions perm_unrolled_BR.
